@@ -18,6 +18,8 @@ func init() {
 		add(&quick, 2, 0, 0, 2, 3, 1)
 		add(&quick, 0, 1, 0, 0, 2, 0)
 		add(&quick, 0, 0, 0, 1, 0, 0)
+		add(&quick, 0, 1, 3, 1, 0, 0)
+		add(&quick, 2, 2, 3, 1, 1, 0)
 		add(&thorough, 0, 3, 0, 1, 0, 0)
 		add(&thorough, 2, 3, 0, 1, 0, 0)
 		add(&thorough, 0, 2, 1, 2, 0, 0)
